@@ -46,15 +46,22 @@ func groupRun(args []string) int {
 		evs := []core.Ev{}
 		log := func(e core.Ev) { mu.Lock(); evs = append(evs, e); mu.Unlock() }
 		gate := sched.NewGate()
+		// a tree of depth three: root -> mid -> leaf; every pool is below mid, so a wait on the root and a wait on the
+		// intermediate group are both waits for all tasks (the waiter alternates between the two)
 		root := hive.NewGroup("root")
-		sub := root.CreateGroup("sub")
+		mid := root.CreateGroup("mid")
+		sub := mid.CreateGroup("leaf")
+		waited := root
+		if tr%2 == 1 {
+			waited = mid
+		}
 		npools := 1 + rng.Intn(3)
 		pools := []*hive.WorkerPool{sub.CreatePool("p1", hive.WithWorkerCount(2))}
 		if npools >= 2 {
 			pools = append(pools, sub.CreatePool("p2", hive.WithWorkerCount(1)))
 		}
 		if npools >= 3 {
-			pools = append(pools, root.CreatePool("p3", hive.WithWorkerCount(1)))
+			pools = append(pools, mid.CreatePool("p3", hive.WithWorkerCount(1)))
 		}
 		sched.QuiesceOpt(300*time.Millisecond, 2, false) // the pools' own goroutines are parked
 		gate.HoldAll()
@@ -91,7 +98,7 @@ func groupRun(args []string) int {
 			go func() {
 				defer wg.Done()
 				log(core.Ev{"op": "wb"})
-				root.WaitChildren()
+				waited.WaitChildren()
 				log(core.Ev{"op": "we"})
 			}()
 		}
